@@ -62,9 +62,14 @@ pub struct IntSource {
     pub samples: Vec<i32>,
     pub pos: usize,
     pub reads: usize,
+    /// what `len_hint` answers (it is only a hint: it may be absent or inaccurate)
+    pub hint: Option<usize>,
 }
 
 impl Source for IntSource {
+    fn len_hint(&self) -> Option<usize> {
+        self.hint
+    }
     fn channels(&self) -> usize {
         self.ch
     }
@@ -218,9 +223,15 @@ pub fn encode_stream(input: &Input, samples: &[i32], cfg: &Verified<config::Enco
         0 => flacenc::encode_with_fixed_block_size(cfg, MemSource::from_samples(samples, ch, bps, rate), bs),
         1 => flacenc::encode_with_fixed_block_size(
             cfg,
-            IntSource { ch, bps, rate, samples: samples.to_vec(), pos: 0, reads: 0 },
+            IntSource { ch, bps, rate, samples: samples.to_vec(), pos: 0, reads: 0, hint: None },
             bs,
         ),
+        // inaccurate length hints: the length rounded up / down to a whole number of blocks
+        3 | 4 => {
+            let n = samples.len() / ch.max(1);
+            let hint = if input.delivery == 3 { (n + bs - 1) / bs * bs } else { n / bs * bs };
+            flacenc::encode_with_fixed_block_size(cfg, IntSource { ch, bps, rate, samples: samples.to_vec(), pos: 0, reads: 0, hint: Some(hint) }, bs)
+        }
         _ => flacenc::encode_with_fixed_block_size(
             cfg,
             ByteSource { ch, bps, rate, bytes: to_le_bytes(samples, bps), pos: 0 },
